@@ -64,5 +64,8 @@ func main() {
 		engine.OverlayJSON = *overlay
 	}
 	engine.EvidenceDir = *evdir
+	if strings.Contains(*prop, ",") {
+		os.Exit(rules.RunMany(strings.Split(*prop, ","), *tier, *repo, *verif, lo))
+	}
 	os.Exit(rules.Run(*prop, *tier, *repo, *verif, lo))
 }
